@@ -186,6 +186,95 @@ theorem sel2_eq_of_safe (q : IExpr) (r : Row) (h : NullSafe q r = true) : q.sel2
     simp only [IExpr.eval3, IExpr.sel2, iha h.1, ihb h.2]
     rcases a.eval3 r with _ | _ | _ <;> rcases b.eval3 r with _ | _ | _ <;> rfl
 
+/-- the polarity-aware hypothesis.  `Safe true q r` is enough for "selected ↔ TRUE", `Safe false q r` for
+    "not selected ↔ FALSE".  A leaf is always fine in positive position and must not be NULL in negative position; NOT
+    flips the polarity (so NOT NOT over a NULL leaf is fine: only an odd number of NOTs above a NULL-valued leaf is
+    excluded); a conjunction with a FALSE side and a disjunction with a TRUE side are decided by that side alone. -/
+def Safe : Bool → IExpr → Row → Bool
+  | true, .query _ _, _ => true
+  | false, .query c q, r => (q.eval3 (cellAt r c)).isSome
+  | p, .not e, r => Safe (!p) e r
+  | p, .and a b, r => a.eval3 r == some false || b.eval3 r == some false || (Safe p a r && Safe p b r)
+  | p, .or a b, r => a.eval3 r == some true || b.eval3 r == some true || (Safe p a r && Safe p b r)
+
+theorem safe_and_case (ea eb : Option Bool) (sa sb ta tb fa fb : Bool)
+    (ba : (ea = some true → sa = true) ∧ (sa = true → ea ≠ some false))
+    (bb : (eb = some true → sb = true) ∧ (sb = true → eb ≠ some false))
+    (iha : (ta = true → sa = (ea == some true)) ∧ (fa = true → (!sa) = (ea == some false)))
+    (ihb : (tb = true → sb = (eb == some true)) ∧ (fb = true → (!sb) = (eb == some false))) :
+    ((ea == some false || eb == some false || (ta && tb)) = true → (sa && sb) = (and3 ea eb == some true)) ∧
+    ((ea == some false || eb == some false || (fa && fb)) = true → (!(sa && sb)) = (and3 ea eb == some false)) := by
+  revert ba bb iha ihb
+  rcases ea with _ | _ | _ <;> rcases eb with _ | _ | _ <;> cases sa <;> cases sb <;> cases ta <;> cases tb <;>
+    cases fa <;> cases fb <;> decide
+
+theorem safe_or_case (ea eb : Option Bool) (sa sb ta tb fa fb : Bool)
+    (ba : (ea = some true → sa = true) ∧ (sa = true → ea ≠ some false))
+    (bb : (eb = some true → sb = true) ∧ (sb = true → eb ≠ some false))
+    (iha : (ta = true → sa = (ea == some true)) ∧ (fa = true → (!sa) = (ea == some false)))
+    (ihb : (tb = true → sb = (eb == some true)) ∧ (fb = true → (!sb) = (eb == some false))) :
+    ((ea == some true || eb == some true || (ta && tb)) = true → (sa || sb) = (or3 ea eb == some true)) ∧
+    ((ea == some true || eb == some true || (fa && fb)) = true → (!(sa || sb)) = (or3 ea eb == some false)) := by
+  revert ba bb iha ihb
+  rcases ea with _ | _ | _ <;> rcases eb with _ | _ | _ <;> cases sa <;> cases sb <;> cases ta <;> cases tb <;>
+    cases fa <;> cases fb <;> decide
+
+theorem safe_spec (q : IExpr) (r : Row) :
+    (Safe true q r = true → q.sel2 r = (q.eval3 r == some true)) ∧
+    (Safe false q r = true → (!q.sel2 r) = (q.eval3 r == some false)) := by
+  induction q with
+  | query c s =>
+    simp only [Safe, IExpr.sel2, IExpr.eval3, hits_eq]
+    refine ⟨by simp, ?_⟩
+    intro h
+    rcases hv : s.eval3 (cellAt r c) with _ | _ | _
+    · simp [hv] at h
+    · rfl
+    · rfl
+  | not e ih =>
+    simp only [Safe, IExpr.sel2, IExpr.eval3, Bool.not_true, Bool.not_false, Bool.not_not]
+    constructor
+    · intro h
+      rw [ih.2 h]
+      rcases e.eval3 r with _ | _ | _ <;> rfl
+    · intro h
+      rw [ih.1 h]
+      rcases e.eval3 r with _ | _ | _ <;> rfl
+  | and a b iha ihb =>
+    simp only [Safe, IExpr.sel2, IExpr.eval3]
+    exact safe_and_case _ _ _ _ _ _ _ _ (sel2_bracket a r) (sel2_bracket b r) iha ihb
+  | or a b iha ihb =>
+    simp only [Safe, IExpr.sel2, IExpr.eval3]
+    exact safe_or_case _ _ _ _ _ _ _ _ (sel2_bracket a r) (sel2_bracket b r) iha ihb
+
+/-- the polarity-aware hypothesis is weaker than "nothing negated is NULL" -/
+theorem nullSafe_imp_safe (q : IExpr) (r : Row) (h : NullSafe q r = true) :
+    Safe true q r = true ∧ ((q.eval3 r).isSome = true → Safe false q r = true) := by
+  induction q with
+  | query c s => exact ⟨rfl, fun h => h⟩
+  | not e ih =>
+    simp only [NullSafe, Bool.and_eq_true] at h
+    simp only [Safe, Bool.not_true, Bool.not_false]
+    exact ⟨(ih h.1).2 h.2, fun _ => (ih h.1).1⟩
+  | and a b iha ihb =>
+    simp only [NullSafe, Bool.and_eq_true] at h
+    have ha := iha h.1
+    have hb := ihb h.2
+    simp only [Safe, IExpr.eval3, ha.1, hb.1, Bool.and_self, Bool.or_true, true_and]
+    intro hs
+    generalize a.eval3 r = ea at *
+    generalize b.eval3 r = eb at *
+    rcases ea with _ | _ | _ <;> rcases eb with _ | _ | _ <;> simp_all [and3]
+  | or a b iha ihb =>
+    simp only [NullSafe, Bool.and_eq_true] at h
+    have ha := iha h.1
+    have hb := ihb h.2
+    simp only [Safe, IExpr.eval3, ha.1, hb.1, Bool.and_self, Bool.or_true, true_and]
+    intro hs
+    generalize a.eval3 r = ea at *
+    generalize b.eval3 r = eb at *
+    rcases ea with _ | _ | _ <;> rcases eb with _ | _ | _ <;> simp_all [or3]
+
 /-- columns of the leaves that sit under a NOT -/
 def colsUnderNot : IExpr → Bool → List Nat
   | .query c _, u => if u then [c] else []
